@@ -4,6 +4,7 @@ From Coq Require Import List Bool NArith.
 Import ListNotations.
 From JS Require Import Model.Base Model.Shape Model.Sem Model.Merger Model.Infer Model.Api
   Model.JsonRef Proofs.MergerSound Proofs.MergerFacts Proofs.InferSound Proofs.SourcesSound Proofs.InferTotal.
+From JS Require Import Model.Lexer Model.Walk Model.TextApi Model.JsonRef Proofs.TextComplete Proofs.TextLift.
 
 (* the pairwise merge is an upper bound of both operands, for ALL well-formed shapes *)
 Theorem C01_merger_upper_bound : forall a b, wf a = true -> wf b = true ->
@@ -58,6 +59,27 @@ Proof. exists kf1_doc. eexists. vm_compute. repeat split. Qed.
 Print Assumptions C01_kf1_refuted.
 
 (* non-vacuity: a nested conflict-free sequence meets the hypotheses *)
+(* ---------- the same statements for the TEXT entry points (JsonShape::from_sources on strings) ----------
+   [text_of s d]: s is an RFC 8259 text (inductive grammar of Model/JsonRef.v) of the tree d, nesting <= 256.
+   On such texts the text pipeline (lexer, recovering parser, CST walk) IS the tree-level function
+   (Proofs/TextComplete.v), so the theorems above hold of from_sources_m with the current configuration. *)
+Theorem C01_text_sources_members : forall srcs ds sh, Forall2 text_of srcs ds ->
+  from_sources_m cfg_now srcs = Ok sh ->
+  forall d, In d ds -> conflict_free d = true -> mem d sh = true.
+Proof. exact text_sources_members. Qed.
+Print Assumptions C01_text_sources_members.
+
+Theorem C01_text_sources_succeed : forall srcs ds, Forall2 text_of srcs ds -> ds <> [] ->
+  Forall (fun d => dup_consistent d = true) ds -> exists sh, from_sources_m cfg_now srcs = Ok sh.
+Proof. exact text_sources_succeed. Qed.
+Print Assumptions C01_text_sources_succeed.
+
+Theorem C01_text_monotone : forall srcs ds s d sh sh', Forall2 text_of srcs ds -> text_of s d ->
+  from_sources_m cfg_now srcs = Ok sh -> from_sources_m cfg_now (srcs ++ [s]) = Ok sh' ->
+  forall x, mem x sh = true -> mem x sh' = true.
+Proof. exact text_sources_monotone. Qed.
+Print Assumptions C01_text_monotone.
+
 Example C01_nonvacuous :
   let ds := [JArr [JObj [([97%N], JNum); ([98%N], JArr [])]; JObj [([97%N], JNum)]];
              JArr [JNum; JStr]; JNull] in
